@@ -2,6 +2,8 @@ import Larking.Gen.Skel
 import Larking.Gen.Missing
 import Larking.Expected.C11
 import Larking.Lemmas.Registry
+import Larking.Gen.TrieDel
+import Larking.Lemmas.TrieDel
 /-
   C11 — Dispatch follows the live registration set.  The registry state machine of mux.go /
   handler.go as written (Model/Registry), for every sequence of RegisterService /
@@ -16,7 +18,9 @@ theorem translator_complete : Gen.missing = [] := by decide
 theorem skeleton_unchanged :
     (Gen.Skel.conds_state_clone,
      Gen.Skel.conds_state_appendHandler,
+     Gen.Skel.stmts_state_appendHandler,
      Gen.Skel.conds_state_removeHandler,
+     Gen.Skel.stmts_state_removeHandler,
      Gen.Skel.conds_state_addConnHandler,
      Gen.Skel.conds_state_processFile,
      Gen.Skel.conds_state_pickMethodHandler,
@@ -24,10 +28,14 @@ theorem skeleton_unchanged :
      Gen.Skel.conds_Mux_RegisterConn,
      Gen.Skel.conds_Mux_DropConn,
      Gen.Skel.conds_path_delRule,
-     Gen.Skel.conds_path_alive)
+     Gen.Skel.stmts_path_delRule,
+     Gen.Skel.conds_path_alive,
+     Gen.Skel.stmts_path_alive)
   = (Expected.C11.conds_state_clone,
      Expected.C11.conds_state_appendHandler,
+     Expected.C11.stmts_state_appendHandler,
      Expected.C11.conds_state_removeHandler,
+     Expected.C11.stmts_state_removeHandler,
      Expected.C11.conds_state_addConnHandler,
      Expected.C11.conds_state_processFile,
      Expected.C11.conds_state_pickMethodHandler,
@@ -35,7 +43,9 @@ theorem skeleton_unchanged :
      Expected.C11.conds_Mux_RegisterConn,
      Expected.C11.conds_Mux_DropConn,
      Expected.C11.conds_path_delRule,
-     Expected.C11.conds_path_alive) := rfl
+     Expected.C11.stmts_path_delRule,
+     Expected.C11.conds_path_alive,
+     Expected.C11.stmts_path_alive) := rfl
 
 /-- every published state reachable by any call sequence satisfies the registry invariant:
 handler identities are unique, a connection entry tracks exactly the handlers that connection
@@ -229,6 +239,55 @@ example : routeOf (run firstOf St.init ex).routes 71 = some 7 := by decide
 -- a conflicting registration (key 70 bound to method 9) fails and changes nothing
 example : (step firstOf (run firstOf St.init ex) (.regService [⟨9, [90, 70]⟩])).2 = .err := by decide
 
+/-! ### `delRule` on the routing trie itself (`Model/TrieDel`): the route table above abstracts
+it; these are the trie-level facts the abstraction relies on. -/
+open Larking.Trie in
+/-- `path.alive` counts every field of a node in which a binding can sit (regenerated from the
+source): a node at or below which anything is bound is never pruned. -/
+theorem alive_counts_every_binding_site : AliveSound Gen.aliveCounts := by
+  unfold AliveSound; decide
+
+open Larking.Trie in
+/-- **`delRule` never touches another method's routes**: whatever is bound for a method other
+than `name` — at any depth, under a verb or under kind `*` (the implicit `/Service/Method`
+route) — is bound at the same place afterwards, whichever rule of `name` the walk over Go's
+maps finds first. A live method therefore keeps all its routes across any `DropConn`. -/
+theorem delRule_keeps_other_methods (name : Nat) (n n' : Node)
+    (h : delRule Gen.aliveCounts name n = some n') (ks : List KEdge) (vk : Option Bytes) (m : Meth)
+    (hne : m.mid ≠ name) (hst : StoredK n ks vk m) : StoredK n' ks vk m :=
+  delRule_keeps Gen.aliveCounts alive_counts_every_binding_site name n n' h ks vk m hne hst
+
+open Larking.Trie in
+/-- … it invents nothing: every binding afterwards was there before … -/
+theorem delRule_invents_nothing (name : Nat) (n n' : Node)
+    (h : delRule Gen.aliveCounts name n = some n') (ks : List KEdge) (vk : Option Bytes) (m : Meth)
+    (hb : BoundIn n' ks vk m) : BoundIn n ks vk m :=
+  delRule_only_removes Gen.aliveCounts name n n' h ks vk m hb
+
+open Larking.Trie in
+/-- … and it answers false only when no verb route of the method is left anywhere in the trie. -/
+theorem delRule_false_means_gone (name : Nat) (n : Node) (h : delRule Gen.aliveCounts name n = none)
+    (ks : List KEdge) (verb : Bytes) (m : Meth) (hb : BoundIn n ks (some verb) m) : m.mid ≠ name :=
+  delRule_none Gen.aliveCounts name n h ks verb m hb
+
+/-- contrast — the code before fix `9c3d92b` (`alive` did not count `methodAll`): removing method
+1's `GET /p/x` prunes `/p`, which holds method 2's kind-`*` binding, and that route is lost. -/
+theorem alive_without_all_loses_route :
+    let mA : Trie.Meth := ⟨1, [], 0⟩
+    let mB : Trie.Meth := ⟨2, [], 1⟩
+    let x : Trie.Node := .mk [] [([71, 69, 84], mA)] none []
+    let pn : Trie.Node := .mk [([47, 120], x)] [] (some mB) []
+    let root : Trie.Node := .mk [([47, 112], pn)] [] none []
+    Trie.StoredK root [.seg [47, 112]] none mB ∧
+    (∃ n', Trie.delRule ["methods", "variables", "segments"] 1 root = some n' ∧
+      ¬ Trie.StoredK n' [.seg [47, 112]] none mB) ∧
+    (∃ n', Trie.delRule Gen.aliveCounts 1 root = some n' ∧ Trie.StoredK n' [.seg [47, 112]] none mB) := by
+  refine ⟨by simp [Trie.StoredK, Trie.StoredHere, Trie.Node.segs, Trie.Node.all, Trie.lookupSeg], ?_, ?_⟩
+  · refine ⟨.mk [] [] none [], by rfl, ?_⟩
+    simp [Trie.StoredK, Trie.Node.segs, Trie.lookupSeg]
+  · refine ⟨.mk [([47, 112], .mk [] [] (some ⟨2, [], 1⟩) [])] [] none [], by rfl, ?_⟩
+    simp [Trie.StoredK, Trie.StoredHere, Trie.Node.segs, Trie.Node.all, Trie.lookupSeg]
+
 end Larking.Props.C11
 
 #print axioms Larking.Props.C11.translator_complete
@@ -245,3 +304,8 @@ end Larking.Props.C11
 #print axioms Larking.Props.C11.reregister_unchanged
 #print axioms Larking.Props.C11.reregister_changed
 #print axioms Larking.Props.C11.failed_changes_nothing
+#print axioms Larking.Props.C11.alive_counts_every_binding_site
+#print axioms Larking.Props.C11.delRule_keeps_other_methods
+#print axioms Larking.Props.C11.delRule_invents_nothing
+#print axioms Larking.Props.C11.delRule_false_means_gone
+#print axioms Larking.Props.C11.alive_without_all_loses_route
